@@ -2,10 +2,13 @@ package c14
 
 import (
 	"context"
+	"encoding/base64"
+	"encoding/hex"
 	"fmt"
 	"io"
 	"net"
 	"net/http"
+	"sort"
 	"strconv"
 	"strings"
 	"sync"
@@ -21,45 +24,486 @@ import (
 	"google.golang.org/grpc"
 	"google.golang.org/grpc/codes"
 	"google.golang.org/grpc/status"
+	"google.golang.org/protobuf/proto"
+
+	"verif/harness/lib"
 )
 
+// The proxy backends of the harness. Without instructions they answer every
+// lookup with a well-formed miss and swallow uploads. The generators script
+// them per key (faultRule): backend-only hits, error statuses, connections
+// closed or reset, stalls that last until the fetching side gives up, short /
+// oversize / wrong payloads. Every answer stays inside the backend protocol
+// (HTTP, REAPI): the faults are those of an unreliable backend, not of a
+// backend speaking another protocol.
+
 // ---------------------------------------------------------------------------
-// HTTP proxy backend that answers every lookup with a miss (404 WITH a body, so
-// that an unclosed response body pins the connection) and swallows uploads.
+// fault table
+
+// faultRule says how the backend answers lookups of one key.
+//
+//	miss            well-formed miss (404 / NotFound / "missing")
+//	hit             the blob, well-formed
+//	status-<n>      HTTP status n with an error page of several KiB         (HTTP backend)
+//	code-<Name>     gRPC status <Name>                                      (gRPC backend)
+//	kill            every connection of the backend is reset when the lookup arrives
+//	reset           this connection is reset without an answer             (HTTP backend)
+//	close-empty     this connection is closed (FIN) without an answer      (HTTP backend)
+//	stall           the lookup is held, unanswered, until released or until the fetching side leaves
+//	                (answerOneHeld: exactly one of the held lookups is answered, with a miss)
+//	trickle         reads: first bytes, then held like stall; existence checks: present
+//	short           reads end cleanly after half of the announced bytes
+//	short-cut       reads break (reset / Internal) after half of the announced bytes
+//	oversize        more bytes than the key's size
+//	wrong-data      the right number of wrong bytes
+//	empty           zero bytes
+//	nocl            body without Content-Length                            (HTTP backend)
+//	huge-cl         Content-Length 2^40, 64 KiB, connection closed         (HTTP backend)
+//	bad-cl          unparsable Content-Length                              (HTTP backend)
+//	redirect-loop   302 to itself                                          (HTTP backend)
+//	plain-zstd      a plain zstd stream where the cas.v2 layout is expected (zstd storage)
+//	garbage         random bytes where the cas.v2 layout is expected        (zstd storage)
+//	hdr-<field>     cas.v2 file with one header field overwritten           (zstd storage)
+type faultRule struct {
+	kind string
+	data []byte // logical content (hit family)
+}
+
+var missRule = &faultRule{kind: "miss"}
+
+// present reports whether existence checks answer "there" for this rule: the
+// hit family, including the hits whose payload is then faulty.
+func (r *faultRule) present() bool {
+	switch r.kind {
+	case "hit", "trickle", "short", "short-cut", "oversize", "wrong-data", "empty", "nocl", "huge-cl", "plain-zstd", "garbage":
+		return true
+	}
+	return strings.HasPrefix(r.kind, "hdr-")
+}
+
+type faultTable struct {
+	mu      sync.Mutex
+	rules   map[string]*faultRule
+	release chan struct{}
+	served  map[string]int64 // "<lookup>:<kind>" -> answers
+	one     chan struct{}    // answerOneHeld
+
+	held     atomic.Int64 // lookups being held right now
+	heldEver atomic.Int64
+	lookups  atomic.Int64 // lookups (existence checks and reads) ever received
+	ln       *killListener
+}
+
+func newFaultTable(ln *killListener) *faultTable {
+	return &faultTable{rules: map[string]*faultRule{}, release: make(chan struct{}), served: map[string]int64{}, one: make(chan struct{}), ln: ln}
+}
+
+func (t *faultTable) set(hash string, r *faultRule) {
+	t.mu.Lock()
+	t.rules[hash] = r
+	t.mu.Unlock()
+}
+
+// reset forgets every rule, lets held lookups go and brings the listener up.
+func (t *faultTable) reset() {
+	t.mu.Lock()
+	t.rules = map[string]*faultRule{}
+	close(t.release)
+	t.release = make(chan struct{})
+	t.mu.Unlock()
+	t.ln.down.Store(false)
+}
+
+// forget drops every rule but keeps the lookups that are being held: from now
+// on the backend answers misses. Called at the moment a client gives up, so
+// that only lookups made on behalf of the running request meet the fault (the
+// server's background uploads, for example, are never stalled by the harness).
+func (t *faultTable) forget() {
+	t.mu.Lock()
+	t.rules = map[string]*faultRule{}
+	t.mu.Unlock()
+}
+
+func (t *faultTable) releaseStalls() {
+	t.mu.Lock()
+	close(t.release)
+	t.release = make(chan struct{})
+	t.mu.Unlock()
+}
+
+// ruleFor: keys without a rule are misses (in particular the existence checks
+// of the server's background uploads are never disturbed by accident).
+func (t *faultTable) ruleFor(hash string, lookup string) *faultRule {
+	t.lookups.Add(1)
+	t.mu.Lock()
+	defer t.mu.Unlock()
+	r := t.rules[hash]
+	if r == nil {
+		r = missRule
+	}
+	t.served[lookup+":"+r.kind]++
+	return r
+}
+
+// hold keeps a lookup unanswered: until the stalls are released ("released"),
+// the harness has exactly this one answered with a miss ("one") or the fetching
+// side has gone ("peer-gone").
+func (t *faultTable) hold(ctx context.Context) string {
+	t.mu.Lock()
+	rel := t.release
+	t.mu.Unlock()
+	t.held.Add(1)
+	t.heldEver.Add(1)
+	defer t.held.Add(-1)
+	select {
+	case <-rel:
+		return "released"
+	case <-t.one:
+		return "one"
+	case <-ctx.Done():
+		return "peer-gone"
+	}
+}
+
+// answerOneHeld has exactly one of the lookups being held answered with a miss.
+func (t *faultTable) answerOneHeld(max time.Duration) bool {
+	select {
+	case t.one <- struct{}{}:
+		return true
+	case <-time.After(max):
+		return false
+	}
+}
+
+// waitHeld waits (bounded) until at least n lookups are being held.
+func (t *faultTable) waitHeld(n int64, max time.Duration) bool {
+	deadline := time.Now().Add(max)
+	for t.held.Load() < n {
+		if time.Now().After(deadline) {
+			return false
+		}
+		time.Sleep(time.Millisecond)
+	}
+	return true
+}
+
+func (t *faultTable) servedSnapshot() map[string]int64 {
+	t.mu.Lock()
+	defer t.mu.Unlock()
+	m := make(map[string]int64, len(t.served))
+	for k, v := range t.served {
+		m[k] = v
+	}
+	return m
+}
+
+// ---------------------------------------------------------------------------
+// listener whose connections the harness can reset
+
+type killListener struct {
+	net.Listener
+	mu     sync.Mutex
+	conns  map[*trackedConn]struct{}
+	down   atomic.Bool  // every new connection is reset right after the accept
+	resets atomic.Int64 // connections reset by the harness
+}
+
+type trackedConn struct {
+	net.Conn
+	l    *killListener
+	once sync.Once
+}
+
+func (c *trackedConn) Close() error {
+	c.once.Do(func() {
+		c.l.mu.Lock()
+		delete(c.l.conns, c)
+		c.l.mu.Unlock()
+	})
+	return c.Conn.Close()
+}
+
+func listenKillable() (*killListener, error) {
+	ln, err := net.Listen("tcp", "127.0.0.1:0")
+	if err != nil {
+		return nil, err
+	}
+	return &killListener{Listener: ln, conns: map[*trackedConn]struct{}{}}, nil
+}
+
+func rstClose(c net.Conn) {
+	if tc, ok := c.(*net.TCPConn); ok {
+		_ = tc.SetLinger(0)
+	}
+	_ = c.Close()
+}
+
+func (l *killListener) Accept() (net.Conn, error) {
+	for {
+		c, err := l.Listener.Accept()
+		if err != nil {
+			return nil, err
+		}
+		if l.down.Load() {
+			l.resets.Add(1)
+			rstClose(c)
+			continue
+		}
+		tc := &trackedConn{Conn: c, l: l}
+		l.mu.Lock()
+		l.conns[tc] = struct{}{}
+		l.mu.Unlock()
+		return tc, nil
+	}
+}
+
+// open is the number of connections the backend has open right now.
+func (l *killListener) open() int {
+	l.mu.Lock()
+	defer l.mu.Unlock()
+	return len(l.conns)
+}
+
+// killAll resets every open connection.
+func (l *killListener) killAll() int {
+	l.mu.Lock()
+	cs := make([]*trackedConn, 0, len(l.conns))
+	for c := range l.conns {
+		cs = append(cs, c)
+	}
+	l.mu.Unlock()
+	for _, c := range cs {
+		l.resets.Add(1)
+		if tc, ok := c.Conn.(*net.TCPConn); ok {
+			_ = tc.SetLinger(0)
+		}
+		_ = c.Close()
+	}
+	return len(cs)
+}
+
+// ---------------------------------------------------------------------------
+// payloads
+
+// casWire lays the content out as a cas.v2 file (what a backend of a server in
+// zstd storage mode holds).
+func casWire(data []byte) []byte {
+	if len(data) == 0 {
+		return nil
+	}
+	return lib.CasWrite(data, lib.MiB, 1, func(c []byte) []byte { return lib.ZstdEncodeKP(c, 1) })
+}
+
+func xorBytes(b []byte) []byte {
+	out := make([]byte, len(b))
+	for i := range b {
+		out[i] = b[i] ^ 0x5a
+	}
+	return out
+}
+
+func junk(n int) []byte { return originBytes(n) }
+
+// payload returns what a read of the key delivers under the rule and how many
+// bytes of it are sent before the read stops (cut < len: the stream ends or
+// breaks there). v2: the cas.v2 layout is expected.
+func (r *faultRule) payload(v2 bool) (wire []byte, cut int) {
+	wireOf := func(d []byte) []byte {
+		if v2 {
+			return casWire(d)
+		}
+		return d
+	}
+	switch {
+	case r.kind == "oversize":
+		wire = wireOf(append(append([]byte{}, r.data...), junk(1000+len(r.data)/8)...))
+	case r.kind == "wrong-data":
+		wire = wireOf(xorBytes(r.data))
+	case r.kind == "empty":
+		wire = nil
+	case r.kind == "plain-zstd":
+		wire = lib.ZstdEncodeKP(r.data, 1)
+	case r.kind == "garbage":
+		wire = junk(len(r.data) + 29)
+	case strings.HasPrefix(r.kind, "hdr-") && v2:
+		wire = casWire(r.data)
+		for _, hm := range hdrMuts {
+			if "hdr-"+hm.name == r.kind && len(wire) > 45 {
+				// deterministic: the mutation's random choices derive from the content
+				wire = hm.f(newContentRng(r.data), wire, int64(len(r.data)))
+			}
+		}
+	default:
+		wire = wireOf(r.data)
+	}
+	cut = len(wire)
+	if r.kind == "short" || r.kind == "short-cut" {
+		cut = len(wire) / 2
+	}
+	if r.kind == "trickle" {
+		cut = len(wire) / 4
+		if cut > 1024 {
+			cut = 1024
+		}
+	}
+	return wire, cut
+}
+
+// ---------------------------------------------------------------------------
+// HTTP proxy backend
 
 type httpMissBackend struct {
-	ln   net.Listener
+	ln   *killListener
 	srv  *http.Server
+	t    *faultTable
 	gets atomic.Int64
 	puts atomic.Int64
 }
 
 func startHTTPMissBackend() (*httpMissBackend, error) {
-	ln, err := net.Listen("tcp", "127.0.0.1:0")
+	ln, err := listenKillable()
 	if err != nil {
 		return nil, err
 	}
-	b := &httpMissBackend{ln: ln}
-	b.srv = &http.Server{Handler: http.HandlerFunc(func(w http.ResponseWriter, r *http.Request) {
-		switch r.Method {
-		case http.MethodPut:
-			b.puts.Add(1)
-			_, _ = io.Copy(io.Discard, r.Body)
-			w.WriteHeader(http.StatusOK)
-		default:
-			b.gets.Add(1)
-			http.Error(w, "no such entry in the harness backend", http.StatusNotFound)
-		}
-	})}
+	b := &httpMissBackend{ln: ln, t: newFaultTable(ln)}
+	b.srv = &http.Server{Handler: http.HandlerFunc(b.serve)}
 	go func() { _ = b.srv.Serve(ln) }()
 	return b, nil
 }
 
 func (b *httpMissBackend) URL() string { return "http://" + b.ln.Addr().String() }
-func (b *httpMissBackend) Close()      { _ = b.srv.Close() }
+func (b *httpMissBackend) Close() {
+	b.t.reset()
+	_ = b.srv.Close()
+}
+
+func hijack(w http.ResponseWriter) net.Conn {
+	hj, ok := w.(http.Hijacker)
+	if !ok {
+		return nil
+	}
+	c, _, err := hj.Hijack()
+	if err != nil {
+		return nil
+	}
+	return c
+}
+
+func (b *httpMissBackend) serve(w http.ResponseWriter, r *http.Request) {
+	if r.Method == http.MethodPut {
+		b.puts.Add(1)
+		_, _ = io.Copy(io.Discard, r.Body)
+		w.WriteHeader(http.StatusOK)
+		return
+	}
+	b.gets.Add(1)
+	parts := strings.Split(strings.Trim(r.URL.Path, "/"), "/")
+	hash := parts[len(parts)-1]
+	ns := "other"
+	if len(parts) >= 2 {
+		ns = parts[len(parts)-2]
+	}
+	head := r.Method == http.MethodHead
+	lookup := ns + "-get"
+	if head {
+		lookup = ns + "-head"
+	}
+	rule := b.t.ruleFor(hash, lookup)
+	miss := func() { http.Error(w, "no such entry in the harness backend", http.StatusNotFound) }
+	raw := func(text string, body []byte, rst bool) {
+		c := hijack(w)
+		if c == nil {
+			return
+		}
+		_, _ = c.Write([]byte(text))
+		_, _ = c.Write(body)
+		if rst {
+			if tc, ok := c.(*trackedConn); ok {
+				if t, ok := tc.Conn.(*net.TCPConn); ok {
+					_ = t.SetLinger(0)
+				}
+			}
+		}
+		_ = c.Close()
+	}
+	switch k := rule.kind; {
+	case k == "miss":
+		miss()
+		return
+	case strings.HasPrefix(k, "status-"):
+		n, _ := strconv.Atoi(strings.TrimPrefix(k, "status-"))
+		if n < 400 || n > 599 {
+			n = 500
+		}
+		// an error page larger than the kilobyte the server forwards from it
+		http.Error(w, "harness backend: injected error status\n"+strings.Repeat("<p>the backend is having a bad day</p>\n", 200), n)
+		return
+	case k == "kill":
+		b.ln.killAll()
+		return
+	case k == "reset":
+		raw("", nil, true)
+		return
+	case k == "close-empty":
+		raw("", nil, false)
+		return
+	case k == "stall":
+		if b.t.hold(r.Context()) == "one" {
+			miss()
+		} else {
+			http.Error(w, "released", http.StatusServiceUnavailable)
+		}
+		return
+	case k == "redirect-loop":
+		http.Redirect(w, r, r.URL.Path, http.StatusFound)
+		return
+	case k == "bad-cl":
+		raw("HTTP/1.1 200 OK\r\nContent-Length: banana\r\nContent-Type: application/octet-stream\r\n\r\n", []byte("x"), false)
+		return
+	}
+	// hit family
+	wire, cut := rule.payload(strings.HasSuffix(ns, ".v2"))
+	if head {
+		if rule.kind == "nocl" {
+			w.WriteHeader(200)
+			return
+		}
+		w.Header().Set("Content-Length", strconv.Itoa(len(wire)))
+		w.WriteHeader(200)
+		return
+	}
+	switch rule.kind {
+	case "nocl":
+		w.WriteHeader(200)
+		if f, ok := w.(http.Flusher); ok {
+			f.Flush() // forces chunked encoding
+		}
+		_, _ = w.Write(wire)
+	case "huge-cl":
+		n := len(wire)
+		if n > 64<<10 {
+			n = 64 << 10
+		}
+		raw("HTTP/1.1 200 OK\r\nContent-Length: 1099511627776\r\nContent-Type: application/octet-stream\r\n\r\n", wire[:n], false)
+	case "short", "short-cut":
+		raw(fmt.Sprintf("HTTP/1.1 200 OK\r\nContent-Length: %d\r\nContent-Type: application/octet-stream\r\n\r\n", len(wire)), wire[:cut], rule.kind == "short-cut")
+	case "trickle":
+		w.Header().Set("Content-Length", strconv.Itoa(len(wire)))
+		w.WriteHeader(200)
+		_, _ = w.Write(wire[:cut])
+		if f, ok := w.(http.Flusher); ok {
+			f.Flush()
+		}
+		b.t.hold(r.Context())
+	default:
+		w.Header().Set("Content-Length", strconv.Itoa(len(wire)))
+		w.WriteHeader(200)
+		_, _ = w.Write(wire)
+	}
+}
 
 // ---------------------------------------------------------------------------
-// gRPC proxy backend that answers every lookup with a well-formed miss.
+// gRPC proxy backend
 
 type grpcMissBackend struct {
 	pb.UnimplementedActionCacheServer
@@ -68,17 +512,18 @@ type grpcMissBackend struct {
 	bs.UnimplementedByteStreamServer
 	asset.UnimplementedFetchServer
 
-	ln    net.Listener
+	ln    *killListener
 	srv   *grpc.Server
+	t     *faultTable
 	calls atomic.Int64
 }
 
 func startGRPCMissBackend() (*grpcMissBackend, error) {
-	ln, err := net.Listen("tcp", "127.0.0.1:0")
+	ln, err := listenKillable()
 	if err != nil {
 		return nil, err
 	}
-	b := &grpcMissBackend{ln: ln, srv: grpc.NewServer(grpc.MaxRecvMsgSize(64 << 20))}
+	b := &grpcMissBackend{ln: ln, t: newFaultTable(ln), srv: grpc.NewServer(grpc.MaxRecvMsgSize(64 << 20))}
 	pb.RegisterActionCacheServer(b.srv, b)
 	pb.RegisterContentAddressableStorageServer(b.srv, b)
 	pb.RegisterCapabilitiesServer(b.srv, b)
@@ -89,7 +534,10 @@ func startGRPCMissBackend() (*grpcMissBackend, error) {
 }
 
 func (b *grpcMissBackend) Addr() string { return b.ln.Addr().String() }
-func (b *grpcMissBackend) Close()       { b.srv.Stop() }
+func (b *grpcMissBackend) Close() {
+	b.t.reset()
+	b.srv.Stop()
+}
 
 func (b *grpcMissBackend) GetCapabilities(context.Context, *pb.GetCapabilitiesRequest) (*pb.ServerCapabilities, error) {
 	return &pb.ServerCapabilities{
@@ -103,9 +551,52 @@ func (b *grpcMissBackend) GetCapabilities(context.Context, *pb.GetCapabilitiesRe
 	}, nil
 }
 
-func (b *grpcMissBackend) GetActionResult(context.Context, *pb.GetActionResultRequest) (*pb.ActionResult, error) {
+var codeByName = func() map[string]codes.Code {
+	m := map[string]codes.Code{}
+	for c := codes.Canceled; c <= codes.Unauthenticated; c++ {
+		m[c.String()] = c
+	}
+	return m
+}()
+
+// failure handles the rule kinds that are the same for every RPC. done=true:
+// the RPC ends with err (nil err: answer a miss).
+func (b *grpcMissBackend) failure(ctx context.Context, rule *faultRule) (done bool, err error) {
+	switch k := rule.kind; {
+	case k == "miss":
+		return true, nil
+	case strings.HasPrefix(k, "code-"):
+		c, ok := codeByName[strings.TrimPrefix(k, "code-")]
+		if !ok {
+			c = codes.Internal
+		}
+		return true, status.Error(c, "harness backend: injected error status")
+	case k == "kill":
+		b.ln.killAll()
+		return true, status.Error(codes.Unavailable, "harness backend: connections reset")
+	case k == "stall":
+		if b.t.hold(ctx) == "one" {
+			return true, nil
+		}
+		return true, status.Error(codes.Unavailable, "harness backend: released")
+	}
+	return false, nil
+}
+
+func (b *grpcMissBackend) GetActionResult(ctx context.Context, req *pb.GetActionResultRequest) (*pb.ActionResult, error) {
 	b.calls.Add(1)
-	return nil, status.Error(codes.NotFound, "harness backend: no such action result")
+	rule := b.t.ruleFor(req.GetActionDigest().GetHash(), "ac-get")
+	if done, err := b.failure(ctx, rule); done {
+		if err != nil {
+			return nil, err
+		}
+		return nil, status.Error(codes.NotFound, "harness backend: no such action result")
+	}
+	ar := &pb.ActionResult{}
+	if err := proto.Unmarshal(rule.data, ar); err != nil {
+		return nil, status.Error(codes.NotFound, "harness backend: no such action result")
+	}
+	return ar, nil
 }
 
 func (b *grpcMissBackend) UpdateActionResult(_ context.Context, req *pb.UpdateActionResultRequest) (*pb.ActionResult, error) {
@@ -116,9 +607,20 @@ func (b *grpcMissBackend) UpdateActionResult(_ context.Context, req *pb.UpdateAc
 	return req.ActionResult, nil
 }
 
-func (b *grpcMissBackend) FindMissingBlobs(_ context.Context, req *pb.FindMissingBlobsRequest) (*pb.FindMissingBlobsResponse, error) {
+func (b *grpcMissBackend) FindMissingBlobs(ctx context.Context, req *pb.FindMissingBlobsRequest) (*pb.FindMissingBlobsResponse, error) {
 	b.calls.Add(1)
-	return &pb.FindMissingBlobsResponse{MissingBlobDigests: req.GetBlobDigests()}, nil
+	resp := &pb.FindMissingBlobsResponse{}
+	for _, d := range req.GetBlobDigests() {
+		rule := b.t.ruleFor(d.GetHash(), "cas-contains")
+		if rule.present() {
+			continue
+		}
+		if _, err := b.failure(ctx, rule); err != nil {
+			return nil, err
+		}
+		resp.MissingBlobDigests = append(resp.MissingBlobDigests, d)
+	}
+	return resp, nil
 }
 
 func (b *grpcMissBackend) BatchReadBlobs(_ context.Context, req *pb.BatchReadBlobsRequest) (*pb.BatchReadBlobsResponse, error) {
@@ -146,9 +648,42 @@ func (b *grpcMissBackend) GetTree(*pb.GetTreeRequest, pb.ContentAddressableStora
 	return status.Error(codes.NotFound, "harness backend: no such tree")
 }
 
-func (b *grpcMissBackend) Read(*bs.ReadRequest, bs.ByteStream_ReadServer) error {
+func (b *grpcMissBackend) Read(req *bs.ReadRequest, srv bs.ByteStream_ReadServer) error {
 	b.calls.Add(1)
-	return status.Error(codes.NotFound, "harness backend: no such blob")
+	parts := strings.Split(req.GetResourceName(), "/")
+	hash, v2 := "", false
+	for i, p := range parts {
+		if (p == "blobs" || p == "zstd") && i+1 < len(parts) {
+			hash = parts[i+1]
+			v2 = p == "zstd"
+		}
+	}
+	rule := b.t.ruleFor(hash, "cas-read")
+	if done, err := b.failure(srv.Context(), rule); done {
+		if err != nil {
+			return err
+		}
+		return status.Error(codes.NotFound, "harness backend: no such blob")
+	}
+	wire, cut := rule.payload(v2)
+	for off := 0; off < cut; {
+		end := off + 64<<10
+		if end > cut {
+			end = cut
+		}
+		if err := srv.Send(&bs.ReadResponse{Data: wire[off:end]}); err != nil {
+			return err
+		}
+		off = end
+	}
+	switch rule.kind {
+	case "short-cut":
+		return status.Error(codes.Internal, "harness backend: stream broken")
+	case "trickle":
+		b.t.hold(srv.Context())
+		return status.Error(codes.Unavailable, "harness backend: released")
+	}
+	return nil
 }
 
 func (b *grpcMissBackend) Write(srv bs.ByteStream_WriteServer) error {
@@ -170,162 +705,42 @@ func (b *grpcMissBackend) QueryWriteStatus(context.Context, *bs.QueryWriteStatus
 	return &bs.QueryWriteStatusResponse{}, nil
 }
 
-func (b *grpcMissBackend) FetchBlob(context.Context, *asset.FetchBlobRequest) (*asset.FetchBlobResponse, error) {
+// FetchBlob is how the server asks a gRPC backend for a blob of unknown size
+// (checksum.sri qualifier, no URI).
+func (b *grpcMissBackend) FetchBlob(ctx context.Context, req *asset.FetchBlobRequest) (*asset.FetchBlobResponse, error) {
 	b.calls.Add(1)
-	return &asset.FetchBlobResponse{Status: &rpcstatus.Status{Code: int32(codes.NotFound), Message: "harness backend: not found"}}, nil
+	notFound := &asset.FetchBlobResponse{Status: &rpcstatus.Status{Code: int32(codes.NotFound), Message: "harness backend: not found"}}
+	hash := ""
+	for _, q := range req.GetQualifiers() {
+		if q.GetName() == "checksum.sri" && strings.HasPrefix(q.GetValue(), "sha256-") {
+			if raw, err := base64.StdEncoding.DecodeString(strings.TrimPrefix(q.GetValue(), "sha256-")); err == nil {
+				hash = hex.EncodeToString(raw)
+			}
+		}
+	}
+	if hash == "" {
+		return notFound, nil
+	}
+	rule := b.t.ruleFor(hash, "cas-fetch")
+	if rule.present() {
+		return &asset.FetchBlobResponse{Status: &rpcstatus.Status{}, BlobDigest: &pb.Digest{Hash: hash, SizeBytes: int64(len(rule.data))}}, nil
+	}
+	if _, err := b.failure(ctx, rule); err != nil {
+		return nil, err
+	}
+	return notFound, nil
 }
 
 func (b *grpcMissBackend) FetchDirectory(context.Context, *asset.FetchDirectoryRequest) (*asset.FetchDirectoryResponse, error) {
 	return &asset.FetchDirectoryResponse{Status: &rpcstatus.Status{Code: int32(codes.NotFound)}}, nil
 }
 
-// ---------------------------------------------------------------------------
-// Origin server for Remote Asset FetchBlob.
-//
-//	/blob/<n>      200, n deterministic bytes, Content-Length
-//	/nocl/<n>      200, n bytes, chunked (no Content-Length)
-//	/short/<n>     200, Content-Length n, n/2 bytes, then the connection is cut
-//	/zero          200, Content-Length 0
-//	/status/<c>    status c with a small body
-//	/loop          302 to itself
-//	/stall         holds the request (no answer) until ReleaseStalls / Close
-//	/trickle       sends headers and a few bytes, then holds the body
-
-type origin struct {
-	ln      net.Listener
-	srv     *http.Server
-	mu      sync.Mutex
-	release chan struct{}
-	stalled atomic.Int64 // requests currently held
-	seen    atomic.Int64 // stall/trickle requests ever received
-	hits    atomic.Int64
-}
-
-func originBytes(n int) []byte {
-	b := make([]byte, n)
-	x := uint32(n)*2654435761 + 12345
-	for i := range b {
-		x = x*1664525 + 1013904223
-		b[i] = byte(x >> 24)
+// servedKeys lists the answers of a table in stable order (evidence).
+func servedKeys(m map[string]int64) []string {
+	ks := make([]string, 0, len(m))
+	for k := range m {
+		ks = append(ks, k)
 	}
-	return b
-}
-
-func startOrigin() (*origin, error) {
-	ln, err := net.Listen("tcp", "127.0.0.1:0")
-	if err != nil {
-		return nil, err
-	}
-	o := &origin{ln: ln, release: make(chan struct{})}
-	mux := http.NewServeMux()
-	num := func(r *http.Request, prefix string) int {
-		n, _ := strconv.Atoi(strings.TrimPrefix(r.URL.Path, prefix))
-		if n < 0 || n > 64<<20 {
-			n = 0
-		}
-		return n
-	}
-	mux.HandleFunc("/blob/", func(w http.ResponseWriter, r *http.Request) {
-		o.hits.Add(1)
-		b := originBytes(num(r, "/blob/"))
-		w.Header().Set("Content-Length", strconv.Itoa(len(b)))
-		_, _ = w.Write(b)
-	})
-	mux.HandleFunc("/nocl/", func(w http.ResponseWriter, r *http.Request) {
-		o.hits.Add(1)
-		b := originBytes(num(r, "/nocl/"))
-		w.WriteHeader(200)
-		if f, ok := w.(http.Flusher); ok {
-			f.Flush() // forces chunked encoding
-		}
-		_, _ = w.Write(b)
-	})
-	mux.HandleFunc("/short/", func(w http.ResponseWriter, r *http.Request) {
-		o.hits.Add(1)
-		n := num(r, "/short/")
-		hj, ok := w.(http.Hijacker)
-		if !ok {
-			return
-		}
-		c, rw, err := hj.Hijack()
-		if err != nil {
-			return
-		}
-		_, _ = fmt.Fprintf(rw, "HTTP/1.1 200 OK\r\nContent-Length: %d\r\nContent-Type: application/octet-stream\r\n\r\n", n)
-		_, _ = rw.Write(originBytes(n)[:n/2])
-		_ = rw.Flush()
-		_ = c.Close()
-	})
-	mux.HandleFunc("/zero", func(w http.ResponseWriter, r *http.Request) {
-		o.hits.Add(1)
-		w.Header().Set("Content-Length", "0")
-		w.WriteHeader(200)
-	})
-	mux.HandleFunc("/status/", func(w http.ResponseWriter, r *http.Request) {
-		o.hits.Add(1)
-		c := num(r, "/status/")
-		if c < 200 || c > 599 {
-			c = 500
-		}
-		http.Error(w, "origin says no", c)
-	})
-	mux.HandleFunc("/loop", func(w http.ResponseWriter, r *http.Request) {
-		o.hits.Add(1)
-		http.Redirect(w, r, "/loop", http.StatusFound)
-	})
-	hold := func(r *http.Request) {
-		o.seen.Add(1)
-		o.stalled.Add(1)
-		defer o.stalled.Add(-1)
-		o.mu.Lock()
-		ch := o.release
-		o.mu.Unlock()
-		select {
-		case <-ch:
-		case <-r.Context().Done(): // the fetching side closed its connection
-		}
-	}
-	mux.HandleFunc("/stall", func(w http.ResponseWriter, r *http.Request) {
-		hold(r)
-		http.Error(w, "released", http.StatusServiceUnavailable)
-	})
-	mux.HandleFunc("/trickle", func(w http.ResponseWriter, r *http.Request) {
-		w.Header().Set("Content-Length", "1000000")
-		w.WriteHeader(200)
-		_, _ = w.Write([]byte("first bytes"))
-		if f, ok := w.(http.Flusher); ok {
-			f.Flush()
-		}
-		hold(r)
-	})
-	o.srv = &http.Server{Handler: mux}
-	go func() { _ = o.srv.Serve(ln) }()
-	return o, nil
-}
-
-func (o *origin) URL() string { return "http://" + o.ln.Addr().String() }
-
-// ReleaseStalls lets every held request finish and re-arms the gate.
-func (o *origin) ReleaseStalls() {
-	o.mu.Lock()
-	close(o.release)
-	o.release = make(chan struct{})
-	o.mu.Unlock()
-}
-
-// WaitStalled waits (bounded) until at least n requests are being held.
-func (o *origin) WaitStalled(n int64, max time.Duration) bool {
-	deadline := time.Now().Add(max)
-	for o.stalled.Load() < n {
-		if time.Now().After(deadline) {
-			return false
-		}
-		time.Sleep(2 * time.Millisecond)
-	}
-	return true
-}
-
-func (o *origin) Close() {
-	o.ReleaseStalls()
-	_ = o.srv.Close()
+	sort.Strings(ks)
+	return ks
 }
